@@ -439,10 +439,27 @@ pub fn judge(
                 if t.vtype != Some(*vtype) {
                     v13("spawn.type", format!("asked for type {} got {:?}", vtype, t.vtype));
                 }
+                let usage = spawn_usage(before);
                 if let Some(N::SD(d)) = path.first() {
                     let sd = t.nodes.first().copied();
-                    if sd != Some(N::SD(*d)) && sd != Some(N::SD(inst.overflow())) {
-                        v13("spawn.start_depot", format!("given start depot {} but the vehicle starts at {:?}", inst.depots[*d].id, sd.map(|n| inst.node_id(n))));
+                    let expected = if depot_available(b, &usage, *d, *vtype) { N::SD(*d) } else { N::SD(inst.overflow()) };
+                    if sd != Some(expected) {
+                        v13(
+                            "spawn.start_depot",
+                            format!("given start depot {} (room for the type: {}) but the vehicle starts at {:?}", inst.depots[*d].id, depot_available(b, &usage, *d, *vtype), sd.map(|n| inst.node_id(n))),
+                        );
+                    }
+                } else if let (Some(N::SD(d)), Some(first)) = (t.nodes.first(), want.first()) {
+                    // documented: spawned from the nearest available depot
+                    if let Err(e) = is_nearest_available_start(b, &usage, *vtype, *first, *d) {
+                        v13("spawn.not_nearest_available_start_depot", e);
+                    }
+                }
+                if !matches!(path.last(), Some(N::ED(_))) && !matches!(path.first(), Some(N::SD(_))) {
+                    if let (Some(N::ED(d)), Some(last)) = (t.nodes.last(), want.last()) {
+                        if let Err(e) = is_nearest_end(inst, *last, *d) {
+                            v13("spawn.not_nearest_end_depot", e);
+                        }
                     }
                 }
                 for n in &want {
@@ -696,6 +713,40 @@ pub fn judge(
         }
         Op::ImproveDepots { vs } => {
             depot_only = true;
+            // documented: every considered vehicle gets the nearest start depot that has room (after
+            // all considered vehicles were taken out of their depots, in the given order) and the
+            // nearest end depot
+            let order: Vec<VehicleIdx> = match vs {
+                Some(v) => v.clone(),
+                None => before.vehicle_listing.iter().flatten().copied().collect(),
+            };
+            let mut usage = spawn_usage(before);
+            for v in &order {
+                if let Some(t) = before.vehicles.get(v) {
+                    if let (Some(N::SD(d)), Some(ty)) = (t.nodes.first(), t.vtype) {
+                        if let Some(c) = usage.get_mut(&(*d, ty)) {
+                            *c = c.saturating_sub(1);
+                        }
+                    }
+                }
+            }
+            for v in &order {
+                if let (Some(bt), Some(at)) = (before.vehicles.get(v), after.vehicles.get(v)) {
+                    let ty = bt.vtype.unwrap_or(0);
+                    let activities = bt.activities();
+                    if let (Some(N::SD(d)), Some(first)) = (at.nodes.first(), activities.first()) {
+                        if let Err(e) = is_nearest_available_start(b, &usage, ty, *first, *d) {
+                            v13("improve_depots.not_nearest_available_start_depot", format!("{}: {}", v, e));
+                        }
+                        *usage.entry((*d, ty)).or_default() += 1;
+                    }
+                    if let (Some(N::ED(d)), Some(last)) = (at.nodes.last(), activities.last()) {
+                        if let Err(e) = is_nearest_end(inst, *last, *d) {
+                            v13("improve_depots.not_nearest_end_depot", format!("{}: {}", v, e));
+                        }
+                    }
+                }
+            }
             if let Some(vs) = vs {
                 // only the named vehicles may change their depots
                 for (v, t) in &before.vehicles {
@@ -805,6 +856,55 @@ pub fn judge(
         out.viol("C12", &sig, format!("{}: {}", op.kind(), detail.clone()));
         out.viol("C13", &format!("tour.{}", sig), format!("{}: {}", op.kind(), detail));
     }
+}
+
+/// depots that can still spawn a vehicle of the type, given spawn counts per (depot, type)
+/// capacities as the loaded network states them (C17 checks separately that they encode the
+/// input; default depots are 'unlimited' only up to what an instance can need, and the random
+/// histories spawn more vehicles than that)
+fn depot_available(b: &Bridge, usage: &BTreeMap<(usize, usize), u64>, d: usize, t: usize) -> bool {
+    let inst = &b.inst;
+    if d == inst.overflow() {
+        return true;
+    }
+    let of_type = usage.get(&(d, t)).copied().unwrap_or(0);
+    let total: u64 = (0..inst.types.len()).map(|x| usage.get(&(d, x)).copied().unwrap_or(0)).sum();
+    let cap_type = b.net.capacity_of(b.depot_idx[d], vt(t)) as u64;
+    let cap_total = b.net.total_capacity_of(b.depot_idx[d]) as u64;
+    of_type < cap_type && total < cap_total
+}
+
+fn spawn_usage(o: &Obs) -> BTreeMap<(usize, usize), u64> {
+    let mut m = BTreeMap::new();
+    for t in o.vehicles.values() {
+        if let (Some(N::SD(d)), Some(ty)) = (t.nodes.first(), t.vtype) {
+            *m.entry((*d, ty)).or_default() += 1;
+        }
+    }
+    m
+}
+
+/// is `chosen` a nearest available start depot for an activity starting at `first`?
+fn is_nearest_available_start(b: &Bridge, usage: &BTreeMap<(usize, usize), u64>, t: usize, first: N, chosen: usize) -> Result<(), String> {
+    let inst = &b.inst;
+    let dist = |d: usize| inst.dist(inst.depots[d].loc, inst.start_loc(first)).unwrap_or(i64::MAX);
+    if !depot_available(b, usage, chosen, t) {
+        return Err(format!("start depot {} has no room for the type", inst.depots[chosen].id));
+    }
+    let best = (0..inst.depots.len()).filter(|&d| depot_available(b, usage, d, t)).map(dist).min().unwrap_or(i64::MAX);
+    if dist(chosen) != best {
+        return Err(format!("start depot {} is {} m away, an available depot is {} m away", inst.depots[chosen].id, dist(chosen), best));
+    }
+    Ok(())
+}
+
+fn is_nearest_end(inst: &Inst, last: N, chosen: usize) -> Result<(), String> {
+    let dist = |d: usize| inst.dist(inst.end_loc(last), inst.depots[d].loc).unwrap_or(i64::MAX);
+    let best = (0..inst.depots.len()).map(dist).min().unwrap_or(i64::MAX);
+    if dist(chosen) != best {
+        return Err(format!("end depot {} is {} m away, the nearest depot is {} m away", inst.depots[chosen].id, dist(chosen), best));
+    }
+    Ok(())
 }
 
 fn check_move_formation(
